@@ -8,7 +8,7 @@ ASSUMPTIONS = ["no equivocation (fork-free DAG); honest nodes only; signature R 
 
 def run(ctx):
     cov, findings, diffs = None, [], []
-    for fl in ("static", "dyn"):
+    for fl in ("static", "dyn", "split"):
         res = simcommon.run(ctx, fl)
         f, d = simcommon.findings_for(res, "C01", None)
         findings += f; diffs += d
@@ -18,7 +18,7 @@ def run(ctx):
         else:
             for k in ("evaluations", "distinct_nontrivial", "histories", "traces_validated_against_impl"):
                 cov[k] += c[k]
-            cov["samples"] += c["samples"][:1]; cov["histogram_" + fl] = c["histogram"]
+            cov["samples"] += c["samples"][:1]; cov["histogram_" + fl] = c["histogram"]; cov["distribution_" + fl] = c["distribution"]
     if diffs and not findings:
         ctx["notes"].append("correspondence broken without an oracle finding: escalated search (thorough parameters)")
         for fl in ("static", "dagrun"):
